@@ -8,7 +8,7 @@
          ext : `-` or `,`-separated  <hex>=e | <hex>=o | <hex>=v<hex>   what net.LookupIP says for the strings that
                are not dotted quads (the resolver parameter of the model); a string not listed is an error
          attr: hex of WriteValue(Attr) (type byte 80 + map)
-         ops `;`-separated:  L:<local+local+…|->:<addr>   AddListen          → .
+         ops `;`-separated:  L:<local+local+…|->:<addr>[:<the same locals in the StringSet's enumeration order>]   AddListen → .
                              O:<local>:<remote>           AddOutter          → .
                              A:<iphex>:<port>             IsAttachable       → 0 | 1
                              B                            ToBytes            → hex
@@ -57,6 +57,10 @@ def nodeOp (ext : Ext) (n : NODE) (op : String) : NODE × String :=
   match op.splitOn ":" with
   | ["L", ls, a] =>
     match parseLocals ls, ofHex a with
+    | some ls, some a => (addListen ext n ls a, ".")
+    | _, _ => (n, "bad")
+  | ["L", _inserted, a, enumerated] =>
+    match parseLocals enumerated, ofHex a with
     | some ls, some a => (addListen ext n ls a, ".")
     | _, _ => (n, "bad")
   | ["O", l, r] =>
